@@ -672,8 +672,18 @@ pub proof fn lemma_mp_step_part(ct: Seq<char>, a: nat, e: nat, n: nat, body: Seq
     let x = body + crlf_b();
     let s1 = ct_line(ct) + crlf_c();
     let bd = (x, after, br1 + x.len() + first_line(t).len());
-    lemma_mp_step_eval(r, acc, s_sep(), true, br, total, s1, part_r2(a, e, n, body, t), s1, part_r2(a, e, n, body, t),
-        cr_line(a, e, n) + crlf_c(), part_r3(body, t), x + t, ct, (a as int, e as int, n as int), bd);
+    // the preconditions of the evaluation lemma one by one (see lemma_mp_step_first)
+    let r2 = part_r2(a, e, n, body, t);
+    let s3 = cr_line(a, e, n) + crlf_c();
+    let r3 = part_r3(body, t);
+    assert(valid_utf8(first_line(r)) && first_line(r).len() > 0 && vstd::utf8::decode_utf8(first_line(r)) == s1 && after_line(r) == r2);
+    assert(has_prefix(s1, s_content_type()) && resp_header_line(s1).is_some() && trim_spec(resp_header_line(s1).unwrap().1) == ct && ct.len() != 0);
+    assert(next_text(r2) == Some((s3, r3)));
+    assert(has_prefix(s3, s_content_range()) && cr_value(resp_header_line_lax(s3).1) == Some((a as int, e as int, n as int)));
+    assert(next_text(r3).is_some() && trim_spec(next_text(r3).unwrap().0).len() == 0 && next_text(r3).unwrap().1 == x + t);
+    assert(br + first_line(r).len() == br1);
+    assert(mp_body(x + t, s_sep(), Seq::<u8>::empty(), br1, total) == Some(bd));
+    lemma_mp_step_eval(r, acc, s_sep(), true, br, total, s1, r2, s1, r2, s3, r3, x + t, ct, (a as int, e as int, n as int), bd);
 }
 // the opening boundary line in front of some input
 pub proof fn lemma_lead_line(ps: Seq<u8>)
@@ -716,8 +726,21 @@ pub proof fn lemma_mp_step_first(ct: Seq<char>, a: nat, e: nat, n: nat, body: Se
     let s1 = bline() + crlf_c();
     let s2 = ct_line(ct) + crlf_c();
     let bd = (x, after, br1 + x.len() + first_line(t).len());
-    lemma_mp_step_eval(r, Seq::<CRV>::empty(), s_sep(), false, br, total, s1, ps, s2, part_r2(a, e, n, body, t),
-        cr_line(a, e, n) + crlf_c(), part_r3(body, t), x + t, ct, (a as int, e as int, n as int), bd);
+    // the preconditions of the evaluation lemma one by one (each is a fact of the three lemmas above; stated separately so that
+    // the call does not depend on the solver finding all of them in one query)
+    let r2 = part_r2(a, e, n, body, t);
+    let s3 = cr_line(a, e, n) + crlf_c();
+    let r3 = part_r3(body, t);
+    assert(valid_utf8(first_line(r)) && first_line(r).len() > 0 && vstd::utf8::decode_utf8(first_line(r)) == s1 && after_line(r) == ps);
+    assert(has_sub(s1, s_sep()));
+    assert(next_text(ps) == Some((s2, r2)));
+    assert(has_prefix(s2, s_content_type()) && resp_header_line(s2).is_some() && trim_spec(resp_header_line(s2).unwrap().1) == ct && ct.len() != 0);
+    assert(next_text(r2) == Some((s3, r3)));
+    assert(has_prefix(s3, s_content_range()) && cr_value(resp_header_line_lax(s3).1) == Some((a as int, e as int, n as int)));
+    assert(next_text(r3).is_some() && trim_spec(next_text(r3).unwrap().0).len() == 0 && next_text(r3).unwrap().1 == x + t);
+    assert(br + first_line(r).len() == br1);
+    assert(mp_body(x + t, s_sep(), Seq::<u8>::empty(), br1, total) == Some(bd));
+    lemma_mp_step_eval(r, Seq::<CRV>::empty(), s_sep(), false, br, total, s1, ps, s2, r2, s3, r3, x + t, ct, (a as int, e as int, n as int), bd);
 }
 
 // ---------- the stream of parts, front to back ----------
